@@ -108,13 +108,14 @@ impl TrackerClient {
 
     fn create_url(metainfo: &Metainfo) -> String {
         let info_hash: String = form_urlencoded::byte_serialize(metainfo.info_hash()).collect();
+        // Fragment is never sent to the server, parameter appended behind it would be lost with it
+        let url = metainfo.tracker_url().split('#').next().unwrap_or("");
         // Announce URL may already contain query string
-        let url = metainfo.tracker_url();
         let separator = match url.find('?') {
             None => "?",
             Some(_) if url.ends_with('?') || url.ends_with('&') => "",
             Some(_) => "&",
         };
-        url.clone() + separator + "info_hash=" + info_hash.as_str()
+        url.to_string() + separator + "info_hash=" + info_hash.as_str()
     }
 }
